@@ -106,6 +106,30 @@ class RecheckProp(Prop):
                 "path_mode": path_mode, "group": group or "none", "clauses": clauses,
                 "shape": sh}
 
+    def corruptions(self, recs):
+        import copy
+        from .mutate import first
+        out = []
+        for r in first(recs, lambda r: r["status"] == "ok" and not r["nostream"] and len(r["stream"]) >= 1):
+            if self.pid == "C16":
+                m = copy.deepcopy(r)
+                m["stream"][0][0] = not m["stream"][0][0]
+                out.append((m, "C16.stream"))
+                m = copy.deepcopy(r)
+                m["ppm"] = m["ppm"] - 5000 if m["ppm"] >= 5000 else m["ppm"] + 5000
+                m["ppm2"] = m["ppm"]
+                out.append((m, "C16.ppm"))
+        for r in first(recs, lambda r: r["status"] == "ok"):
+            if self.pid == "C05":
+                m = copy.deepcopy(r)
+                m["ppm"] = m["ppm2"] = 99999999
+                out.append((m, "C05.hundred"))
+            if self.pid == "C04" and any((not d["present"] and k == "f") or d["flips"] for d, k in zip(r["disk"], r["kinds"])):
+                m = copy.deepcopy(r)
+                m["ppm"] = m["ppm2"] = 100000000
+                out.append((m, "C04.lt100"))
+        return out
+
     def fix_view(self, case):
         """damage indexes refer to payload files in tree order; translate to the recorded view
         (which may be reordered / have padding entries) is done by name in the runner."""
